@@ -145,13 +145,14 @@ func trial(kind string, rng *rand.Rand) []map[string]any {
 		var cas func(o, n int) bool
 		var with func() int
 		set, init := 0, 0
-		if kind == "sync" {
+		isSync := false
+		if kind == "sync" || (kind == "casduel" && rng.Intn(3) == 0) {
 			s := adt.NewSynchronized(0)
 			if rng.Intn(2) == 0 {
 				init = 1 + rng.Intn(3)
 				s = adt.NewSynchronized(init)
 			}
-			set = 1
+			set, isSync = 1, true
 			a, cas = s, func(o, n int) bool { return adt.CompareAndSwap[int](s, o, n) }
 			with = func() (out int) { s.With(func(v int) { out = v }); return }
 		} else {
@@ -163,9 +164,9 @@ func trial(kind string, rng *rand.Rand) []map[string]any {
 			a, cas = at, func(o, n int) bool { return adt.CompareAndSwap[int](at, o, n) }
 			with = func() int { return at.Get() }
 		}
-		k := "sync"
-		if kind != "sync" {
-			k = "atomic"
+		k := "atomic"
+		if set == 1 && with != nil && isSync {
+			k = "sync"
 		}
 		lg.add(map[string]any{"ev": "config", "kind": k, "v": init, "set": set, "f": "none"})
 		ops := []string{"get", "set", "swap", "cas", "cas", "cas", "with"}
